@@ -110,7 +110,3 @@ func cmdVerify(args []string) {
 	}
 	fmt.Printf("result: %v  total %.1fs\n", counts, time.Since(t0).Seconds())
 }
-
-func cmdCheck(args []string)    {}
-func cmdSelftest(args []string) {}
-func cmdReplay(args []string)   {}
